@@ -162,7 +162,9 @@ def _inlineable(v):
     if isinstance(v, str):
         if v.startswith("<%") or v.startswith("{{"):
             return True
-        return '"' not in v and "'" not in v
+        if v == "" or v != v.strip() or "=" in v or "\n" in v:
+            return False          # outside the documented inline forms
+        return "'" not in v       # a double quote inside is written between apostrophes
     if isinstance(v, dict):
         return all(isinstance(k, str) for k in v) and "'" not in json.dumps(v)
     return False
@@ -181,6 +183,8 @@ def _inline(v):
         return "'%s'" % json.dumps(v)
     if v.startswith("<%") or v.startswith("{{"):
         return v
+    if '"' in v:
+        return "'%s'" % v
     return '"%s"' % v
 
 
@@ -244,6 +248,75 @@ def _d11(spec):
 # ---------------------------------------------------------------------------------------------
 
 
+def mon_C15_inspect(s):
+    """single-fault mutants of an accepted definition must be reported by inspection"""
+    if not s["ops"] or s["ops"][0]["op"] != "init":
+        return []
+    import copy
+    rng = random.Random(core.dumps(s["def"]))
+    out = []
+    base = s["def"]
+    lang = s["lang"]
+    try:
+        if core.inspect_def(base, lang):
+            return []
+    except Exception:
+        return []
+    names = [t["name"] for t in base["tasks"]]
+    reach = monitors.reachable(s)
+    muts = []
+    # (a) a transition to an undefined task, at every (task, transition, position)
+    for ti, t in enumerate(base["tasks"]):
+        if t["name"] not in reach:
+            continue
+        for ri, tr in enumerate(t["next"]):
+            for di, dname in enumerate(tr["do"]):
+                if dname in gen.CMDS:
+                    continue
+                m = copy.deepcopy(base)
+                m["tasks"][ti]["next"][ri]["do"][di] = "zz_undefined"
+                muts.append(("semantics", "undefined target in %s.next[%d]" % (t["name"], ri), m))
+    # (b) a reference to an unassigned variable in a transition condition / publish / input
+    for ti, t in enumerate(base["tasks"]):
+        if t["name"] not in reach:
+            continue
+        m = copy.deepcopy(base)
+        m["tasks"][ti]["input"].append(["bad", {"ctx": "never_assigned"}])
+        muts.append(("context", "unassigned variable in input of %s" % t["name"], m))
+        for ri, tr in enumerate(t["next"]):
+            m = copy.deepcopy(base)
+            m["tasks"][ti]["next"][ri]["when"] = {"op": "eq", "a": {"ctx": "never_assigned"}, "b": {"lit": 1}}
+            muts.append(("context", "unassigned variable in when of %s.next[%d]" % (t["name"], ri), m))
+            m = copy.deepcopy(base)
+            m["tasks"][ti]["next"][ri]["publish"].append(["pv", {"ctx": "never_assigned"}])
+            muts.append(("context", "unassigned variable in publish of %s.next[%d]" % (t["name"], ri), m))
+        if t.get("retry") is not None:
+            m = copy.deepcopy(base)
+            m["tasks"][ti]["retry"]["when"] = {"op": "eq", "a": {"ctx": "never_assigned"}, "b": {"lit": 1}}
+            muts.append(("context", "unassigned variable in retry.when of %s" % t["name"], m))
+    # (c) a task named like an engine command
+    if names:
+        m = copy.deepcopy(base)
+        old = m["tasks"][0]["name"]
+        m["tasks"][0]["name"] = "noop"
+        for t in m["tasks"]:
+            for tr in t["next"]:
+                tr["do"] = ["noop" if x == old else x for x in tr["do"]]
+        muts.append(("semantics", "task named noop", m))
+    rng.shuffle(muts)
+    for kind, what, m in muts[:12]:
+        try:
+            ins = core.inspect_def(m, lang)
+        except Exception as e:
+            out.append(V("inspection raised %s on a mutant (%s)" % (type(e).__name__, what), 0, "D22" if isinstance(e, KeyError) else None))
+            continue
+        if not ins:
+            v = V("inspection accepts a broken definition: %s" % what, 0)
+            v["ops"] = [{"op": "inspect", "def": m, "lang": lang}]
+            out.append(v)
+    return out
+
+
 def extra_monitor(pid, s):
     from harness import twins
     if pid == "C08":
@@ -252,6 +325,8 @@ def extra_monitor(pid, s):
         return twins.mon_C09_twin(s)
     if pid == "C17":
         return twins.mon_C17_twin(s)
+    if pid == "C15":
+        return mon_C15_inspect(s)
     if pid == "C05":
         return mon_C05(s)
     if pid == "C14":
